@@ -1,7 +1,7 @@
 SPECIFICATION MCSpec
 CONSTANTS
   GenMode = TRUE
-  GenDepth = 4
+  GenDepth = 3
   Fam = "cb"
   MaxSet = 2
 CHECK_DEADLOCK FALSE
